@@ -21,6 +21,8 @@ VARIANTS = {
     "all3": (["RFC6531_FOLLOW_RFC20=ON", "RFC6531_FOLLOW_RFC5322=ON", "LABELS_ALLOW_UNDERSCORE=ON"],
              ["-DRFC6531_FOLLOW_RFC20", "-DRFC6531_FOLLOW_RFC5322", "-DLABELS_ALLOW_UNDERSCORE"]),
     "extra": (["INCLUDES=-DEAV_EXTRA"], ["-DEAV_EXTRA"]),
+    # assertions compiled out, as in a release build
+    "ndebug": (["INCLUDES=-DNDEBUG"], ["-DNDEBUG"]),
 }
 
 
@@ -73,13 +75,16 @@ def build_variant(scr, name):
 
 def build_backend(scr, be):
     """compile the sources of one IDN back end (partial/<be>) against the shim headers onto one converter"""
-    d = scr.copy_repo("b_" + be)
+    extra = []
+    if be.endswith("+extra"):
+        be, extra = be[:-6], ["-DEAV_EXTRA"]
+    d = scr.copy_repo("b_" + be + ("_x" if extra else ""))
     define = {"idn": "-DHAVE_LIBIDN", "idnkit": "-DHAVE_IDNKIT", "idn2": "-DHAVE_LIBIDN2"}[be]
     shim = os.path.join(VERIF, "shims")
     srcs = sorted(os.path.join(d, "src", x) for x in os.listdir(os.path.join(d, "src")) if x.endswith(".c"))
     srcs += sorted(os.path.join(d, "partial", be, x) for x in os.listdir(os.path.join(d, "partial", be)) if x.endswith(".c"))
     exe = os.path.join(d, "drive")
-    cmd = [CC] + SAN.split() + ["-w", "-std=gnu99", "-D_DEFAULT_SOURCE", "-D_XOPEN_SOURCE=700", define] + \
+    cmd = [CC] + SAN.split() + ["-w", "-std=gnu99", "-D_DEFAULT_SOURCE", "-D_XOPEN_SOURCE=700", define] + extra + \
           (["-I" + shim] if be != "idn2" else []) + ["-I" + os.path.join(d, "include"), "-I" + d] + srcs + \
           [os.path.join(shim, "shim_impl.c"), os.path.join(VERIF, "harness/drive.c"), "-lidn2", "-Wl,--wrap=idn2_to_ascii_8z", "-o", exe]
     p = subprocess.run(cmd, stdout=subprocess.PIPE, stderr=subprocess.STDOUT)
@@ -302,6 +307,38 @@ def gcov_report(exe):
     return dict(files=files, totals=totals, unexecuted_lines=missed, lines_with_an_untaken_branch=untaken)
 
 
+def make_locales(scr):
+    """process locales an application may have selected before it calls the library: the installed UTF-8 one and a private single-byte
+    (ISO-8859-1) one compiled with localedef into the scratch directory.  Returns a list of environment dicts for the harness."""
+    out = []
+    p = subprocess.run(["locale", "-a"], stdout=subprocess.PIPE, stderr=subprocess.DEVNULL)
+    names = p.stdout.decode(errors="replace").split()
+    for n in ("C.utf8", "C.UTF-8", "en_US.utf8", "en_US.UTF-8"):
+        if n in names:
+            out.append({"VERIF_LOCALE": n})
+            break
+    d = os.path.join(scr.dir, "locale")
+    os.makedirs(os.path.join(d, "out"), exist_ok=True)
+    U = lambda i: "<U%04X>" % i
+    R = lambda xs: ";".join(U(i) for i in xs)
+    cm = ["<code_set_name> ISO-8859-1", "<comment_char> %", "<escape_char> /", "<mb_cur_min> 1", "<mb_cur_max> 1", "CHARMAP"] + \
+         ["%s /x%02x" % (U(i), i) for i in range(256)] + ["END CHARMAP"]
+    up = list(range(65, 91)) + [i for i in range(0xC0, 0xDF) if i != 0xD7]
+    lo = list(range(97, 123)) + [i for i in range(0xE0, 0xFF) if i != 0xF7]
+    src = ["comment_char %", "escape_char /", "LC_CTYPE", "upper " + R(up), "lower " + R(lo + [0xDF, 0xFF]), "digit " + R(range(48, 58)),
+           "space " + R([9, 10, 11, 12, 13, 32]), "cntrl " + R(list(range(0, 32)) + list(range(127, 160))),
+           "punct " + R(list(range(33, 48)) + list(range(58, 65)) + list(range(91, 97)) + list(range(123, 127)) + list(range(0xA1, 0xC0)) + [0xD7, 0xF7]),
+           "xdigit " + R(list(range(48, 58)) + list(range(65, 71)) + list(range(97, 103))), "blank " + R([9, 32]),
+           "toupper " + ";".join("(%s,%s)" % (U(i), U(i - 32)) for i in lo), "tolower " + ";".join("(%s,%s)" % (U(i), U(i + 32)) for i in up), "END LC_CTYPE"]
+    open(os.path.join(d, "ISO-8859-1"), "w").write("\n".join(cm) + "\n")
+    open(os.path.join(d, "xx_XX"), "w").write("\n".join(src) + "\n")
+    subprocess.run(["localedef", "-c", "-f", os.path.join(d, "ISO-8859-1"), "-i", os.path.join(d, "xx_XX"), os.path.join(d, "out", "xx_XX.ISO-8859-1")],
+                   stdout=subprocess.DEVNULL, stderr=subprocess.DEVNULL)
+    if os.path.exists(os.path.join(d, "out", "xx_XX.ISO-8859-1", "LC_CTYPE")):
+        out.append({"VERIF_LOCALE": "xx_XX.ISO-8859-1", "LOCPATH": os.path.join(d, "out")})
+    return out
+
+
 # ----------------------------------------------------------------------------- running ops
 
 def hx(b):
@@ -310,11 +347,14 @@ def hx(b):
     return b.hex() if len(b) else "-"
 
 
-def run_ops(scr, drive, driver, ops, tag="ops"):
+def run_ops(scr, drive, driver, ops, tag="ops", env_extra=None):
     """run ops through the harness (restarting after a sanitizer abort) and through the model driver.
     Returns (c_lines, lean_lines, crashes) with c_lines[i] / lean_lines[i] the result for ops[i]."""
-    env = dict(os.environ, LC_ALL="C", ASAN_OPTIONS="detect_leaks=1:abort_on_error=0:exitcode=99:allocator_may_return_null=1",
+    # every fresh heap block is filled with 0xA5, so that a field the library forgets to initialise has a visible value
+    env = dict(os.environ, LC_ALL="C", ASAN_OPTIONS="detect_leaks=1:abort_on_error=0:exitcode=99:allocator_may_return_null=1:max_malloc_fill_size=65536:malloc_fill_byte=165",
                UBSAN_OPTIONS="print_stacktrace=1:halt_on_error=1", LSAN_OPTIONS="exitcode=98")
+    if env_extra:
+        env.update(env_extra)
     c_lines = [None] * len(ops)
     lean_in = []
     crashes = []
